@@ -72,6 +72,9 @@ class LruClass:
 
     # ---- node predicates on __call__ -------------------------------------
     def is_self_attr(self, e: Optional[ast.AST], attr: Optional[str]) -> bool:
+        # (``cast(OrderedDict, self.__cache)`` is ``self.__cache``)
+        while isinstance(e, ast.Call) and norm(e.func).split(".")[-1] == "cast" and len(e.args) == 2:
+            e = e.args[1]
         return attr is not None and isinstance(e, ast.Attribute) and e.attr == attr \
             and isinstance(e.value, ast.Name) and e.value.id == "self"
 
@@ -144,6 +147,14 @@ class LruClass:
         """For a branch node comparing len(cache) with maxsize: a function
         (size, maxsize) -> bool giving the outcome of the test; else None."""
         if n.kind != "branch" or not isinstance(n.ast, ast.Compare) or len(n.ast.ops) != 1:
+            return None
+        if isinstance(n.ast.ops[0], (ast.Is, ast.IsNot)):
+            # ``self.<maxsize> is [not] None``: in the bounded class the capacity is a number
+            sides = [n.ast.left, n.ast.comparators[0]]
+            if any(self.is_self_attr(s_, self.maxsize) for s_ in sides) and any(
+                    isinstance(s_, ast.Constant) and s_.value is None for s_ in sides):
+                outcome = isinstance(n.ast.ops[0], ast.IsNot)
+                return lambda size, mx, outcome=outcome: outcome
             return None
         ops = {ast.GtE: operator.ge, ast.Gt: operator.gt, ast.Eq: operator.eq, ast.LtE: operator.le,
                ast.Lt: operator.lt, ast.NotEq: operator.ne}
